@@ -226,6 +226,86 @@ def generate(loader):
     rd = F.denormalize_flow(e3, size=(5, 7, 9), channels_last=True)
     rt = F.denormalize_flow(e3, size=(5, 7, 9), align_corners=True, channels_last=True)
     out.append(f"Definition gen_denormalize_default_is_ac : bool := {'true' if trlib.same_tensor(rd.a, rt.a) else 'false'}.\n")
+    # ---- spacing divisor of every partial derivative in every derivative mode -----------------------------
+    # spatial_derivatives is executed with every linear operator on the data (finite_differences, conv, conv1d,
+    # F.pad, evaluate_cubic_bspline) replaced by the identity / "divide by the step it is given", and a symbolic
+    # per-axis spacing (h0, h1, h2): what remains is x / (product of the spacings the code divides by).
+    I = loader.load("deepali.core.image")
+    B = loader.load("deepali.core.bspline")
+    KEYS3 = ["x", "y", "z", "xx", "xy", "xz", "yy", "yz", "zz"]
+    SD_MODES = ["forward", "backward", "central", "forward_central_backward", "prewitt", "sobel", "gaussian", "bspline"]
+
+    def fd_stub(data, sdim, mode="forward_central_backward", order=1, dilation=1, spacing=1):
+        sp_ = spacing if isinstance(spacing, st.Tensor) else st.tensor(spacing)
+        v = sp_.a.reshape(-1)
+        if v.shape[0] != 1:
+            raise TraceError("finite_differences stub: one step size expected")
+        return data / v[0]
+
+    class _F:
+        @staticmethod
+        def pad(data, pad, mode="constant", value=None):
+            return data.clone()
+
+    olds = {"fd": I.finite_differences, "conv": I.conv, "conv1d": I.conv1d, "F": I.F, "g0": I.gaussian1d, "g1": I.gaussian1d_I,
+            "ev": B.evaluate_cubic_bspline, "w": B.cubic_bspline_interpolation_weights}
+    I.finite_differences = fd_stub
+    I.conv = lambda data, kernel, **kw: data.clone()
+    I.conv1d = lambda data, kernel, **kw: data.clone()
+    I.F = _F
+    I.gaussian1d = lambda *a, **k: [1.0]
+    I.gaussian1d_I = lambda *a, **k: [1.0]
+    B.evaluate_cubic_bspline = lambda data, kernel=None, **kw: data.clone()
+    B.cubic_bspline_interpolation_weights = lambda **kw: [1.0]
+    try:
+        xs = np.empty((1, 1, 1, 1, 1), dtype=object)
+        xs[0, 0, 0, 0, 0] = E.var("x")
+        hs = st.Tensor(np.array([[E.var("h0"), E.var("h1"), E.var("h2")]], dtype=object))
+        for mode in SD_MODES:
+            d = I.spatial_derivatives(st.Tensor(xs.copy()), which=KEYS3, mode=mode, spacing=hs)
+            if list(d) != KEYS3:
+                raise TraceError(f"spatial_derivatives({mode}): keys {list(d)}")
+            vals = []
+            for k in KEYS3:
+                v = d[k].a.reshape(-1)
+                if v.shape[0] != 1:
+                    raise TraceError(f"spatial_derivatives({mode})[{k}]: shape {d[k].a.shape}")
+                vals.append(st.to_coq(v[0]))
+            out.append(f"(* spatial_derivatives(mode={mode!r}, spacing=(h0, h1, h2)): spacing divisors of x, y, z, xx, xy, xz, yy, yz, zz *)\n"
+                       f"Definition gen_sd_{mode} (h0 h1 h2 x : K) : list K :=\n  [" + ";\n   ".join(vals) + "].\n")
+        # the default mode is forward_central_backward
+        d0 = I.spatial_derivatives(st.Tensor(xs.copy()), which=["x"], spacing=hs)
+        d1 = I.spatial_derivatives(st.Tensor(xs.copy()), which=["x"], mode="forward_central_backward", spacing=hs)
+        if not trlib.same_tensor(d0["x"].a, d1["x"].a):
+            raise TraceError("spatial_derivatives: default mode is not forward_central_backward")
+    finally:
+        I.finite_differences, I.conv, I.conv1d, I.F, I.gaussian1d, I.gaussian1d_I = (olds[k] for k in ("fd", "conv", "conv1d", "F", "g0", "g1"))
+        B.evaluate_cubic_bspline, B.cubic_bspline_interpolation_weights = olds["ev"], olds["w"]
+    # the default spacing of flow_derivatives / grad_loss is the cube spacing 2 / (n - 1) per axis, x first
+    seen_sp = []
+
+    def sd_rec(data, which=None, order=None, mode=None, sigma=None, spacing=None, stride=None):
+        seen_sp.append(spacing)
+        return {k: stub_tensor(f"g_{k}_", data.shape[2:], channels=data.shape[1]) for k in which}
+    o1, o2 = F.spatial_derivatives, L.spatial_derivatives
+    F.spatial_derivatives = L.spatial_derivatives = sd_rec
+    try:
+        ua = np.empty((1, 3, 4, 3, 5), dtype=object)     # (N, D, Z, Y, X) = sizes x: 5, y: 3, z: 4
+        for idx in np.ndindex(*ua.shape):
+            ua[idx] = E.var("u")
+        F.flow_derivatives(st.Tensor(ua), which=["du/dx"])
+        L.grad_loss(st.Tensor(ua))
+        from fractions import Fraction
+        want = [Fraction(2, 4), Fraction(2, 2), Fraction(2, 3)]
+        for sp_ in seen_sp:
+            got = [Fraction(v).limit_denominator(1000) for v in sp_]
+            if got != want:
+                raise TraceError(f"default spacing is {got}, expected 2/(n-1) per axis in the order (x, y, z): {want}")
+        if len(seen_sp) < 2:
+            raise TraceError("default spacing: call sites not reached")
+    finally:
+        F.spatial_derivatives, L.spatial_derivatives = o1, o2
+
     # ---- inverse_consistency_loss: unit conversion of the error, for either align_corners ----------------
     # the grid is a stand-in object (sizes (5, 7, 9), symbolic spacing); transform_grid adds a symbolic error
     # vector e to the grid coordinates and transform_points is the identity, so error = e at every point.
